@@ -355,6 +355,37 @@ Theorem C07_bond_gram_chain_partial : forall (R : CRing) (left right : list (nat
 Proof. exact bond_gram_chain. Qed.
 Print Assumptions C07_bond_gram_chain_partial.
 
+(* ================================================================= the observable list is an input only *)
+(* Mps.expectations converts Op / OpSum entries into a fresh list; the caller's list (second component of the modelled
+   call) is returned unchanged, a second call with the same list behaves like a call with a fresh copy, and every
+   value is the cut value of the operator built for THE CURRENT model from that entry: it depends on
+   (state, model, entry) only.  The correspondence (oracle stream `shared-list`) checks on the real code that the list
+   holds the same objects after the call and that the values on several models equal the dense kron references. *)
+Theorem C07_call_leaves_list : forall (E Ob V Sym Mdl St : Type) build stepo (init : E) (dflt : Ob) (dot : E -> E -> V)
+    (mdl : Mdl) (st : St) nmps (lst : list (entry Ob Sym)),
+  snd (expectations_call E Ob V Sym Mdl St build stepo init dflt dot mdl st nmps lst) = lst.
+Proof. exact call_frame. Qed.
+Print Assumptions C07_call_leaves_list.
+
+Theorem C07_two_calls_independent : forall (E Ob V Sym Mdl St : Type) build stepo (init : E) (dflt : Ob) (dot : E -> E -> V)
+    (mA : Mdl) (sA : St) nA (mB : Mdl) (sB : St) nB (lst : list (entry Ob Sym)),
+  two_calls E Ob V Sym Mdl St build stepo init dflt dot mA sA nA mB sB nB lst =
+  (fst (expectations_call E Ob V Sym Mdl St build stepo init dflt dot mA sA nA lst),
+   fst (expectations_call E Ob V Sym Mdl St build stepo init dflt dot mB sB nB lst), lst).
+Proof. exact two_calls_independent. Qed.
+Print Assumptions C07_two_calls_independent.
+
+Theorem C07_call_values : forall (E Ob V Sym Mdl St : Type) build stepo (init : E) (dflt : Ob) (dot : E -> E -> V)
+    (mdl : Mdl) (st : St) nmps (lst : list (entry Ob Sym)),
+  (forall x, In x lst -> length (convert Ob Sym Mdl build mdl x) = nmps) ->
+  (forall h o o', In (h, o) (concat (map (convert Ob Sym Mdl build mdl) lst)) ->
+                  In (h, o') (concat (map (convert Ob Sym Mdl build mdl) lst)) -> o = o') ->
+  exists vs, fst (expectations_call E Ob V Sym Mdl St build stepo init dflt dot mdl st nmps lst) = Some vs /\
+    Forall2 (fun v x => exists k, k <= nmps /\
+               v = split_value E Ob V (stepo st) init dot k (map snd (convert Ob Sym Mdl build mdl x))) vs lst.
+Proof. exact call_values. Qed.
+Print Assumptions C07_call_values.
+
 (* ---------------------------------------------------------------- non-vacuity *)
 Local Open Scope Z_scope.
 (* a two-site integer state, bond dimension two, and four operators Z1, Z2, Z1 Z2, Z2 (one repeated) *)
